@@ -14,7 +14,7 @@ UNSCOPED = {
 }
 # row-level lookups behind the serving accessors: (accessor, row function, how the room constrains it)
 ROW_LOOKUPS = [
-    ("get_room_definition", "RoomDefinitionLog::get", "sql", r"rcl\.room_id\s*=\s*\?"),
+    ("get_room_definition", "RoomDefinitionLog::get", "sql", r"room_id\s*=\s*\?"),
     ("get_room_log", "DailyLog::get_room_log", "sql", r"room_id\s*=\s*\?"),
     ("get_room_log_at", "DailyLog::get_room_log_at", "sql", r"room_id\s*=\s*\?"),
     ("get_room_daily_nodes", "Node::get_daily_nodes_for_room", "sql", r"room_id\s*=\s*\?"),
@@ -208,28 +208,42 @@ def run(P, C, tier):
         C.ob("R3", "forward:%s" % acc, fwd, ab.loc(), "%s passes its room_id to %s" % (acc, rowfn))
         if how == "sql":
             st = sql.statements(rb)
-            ok = False
+            ok = bool(st)
             detail = "no statement"
+            details = []
+            # EVERY statement of the row function is constrained to the room, with the room parameter bound at that placeholder
             for bi, cal, text, holes, term in st:
                 if text is None:
-                    detail = "statement text not constant"
+                    ok = False
+                    details.append("statement text not constant")
                     continue
                 m = re.search(pat, text)
                 if not m:
-                    detail = "statement lacks the room constraint /%s/" % pat
+                    ok = False
+                    details.append("statement lacks the room constraint /%s/" % pat)
                     continue
                 pos = text[:m.end()].count("?") - 1
-                # the parameter bound at that position
+                # the parameter bound at that position, in the execution(s) of THIS statement
                 bound = None
+                n_exec = 0
                 for qb, qt in rb.calls_to(r"Statement.*::(query|query_map|query_row|execute)$"):
+                    pc = mir.has_call(rb.call_args(qb, expand_vars=True)[0], r"::prepare(_cached)?$")
+                    if pc is None or pc[3] != bi:
+                        continue
+                    n_exec += 1
                     qa = rb.call_args(qb)
                     params = qa[1]
                     while params[0] in ("ref", "deref"):
                         params = params[1]
-                    if params[0] == "aggr" and pos < len(params[4]):
-                        bound = params[4][pos]
-                ok = bound is not None and mir.strip(bound)[0] == "param" and re.search(r"^\[u8; 16\]$", mir.short_type(rb.root_type(mir.strip(bound)))) is not None
-                detail = "statement constrains room with placeholder #%d bound to %s" % (pos + 1, term_str(bound) if bound else "?")
+                    b1 = params[4][pos] if params[0] == "aggr" and pos < len(params[4]) else None
+                    b1ok = b1 is not None and mir.strip(b1)[0] == "param" and re.search(r"^\[u8; 16\]$", mir.short_type(rb.root_type(mir.strip(b1)))) is not None
+                    if not b1ok:
+                        ok = False
+                    bound = b1
+                if n_exec == 0:
+                    ok = False
+                details.append("placeholder #%d bound to %s in %d execution(s)" % (pos + 1, term_str(bound) if bound else "?", n_exec))
+            detail = "; ".join(details) or detail
             C.ob("R3", "constraint:%s" % rowfn, ok, rb.loc(), detail)
         else:
             # code filter: every push of a row into the result is dominated by rid.eq(room_id)==true and Some(room)
